@@ -17,6 +17,9 @@ static rc::Gen<long long> fdim() {
     return g::weightedOneOf<long long>({{10, pick({1, 2, 3})}, {3, g::just<long long>(0)}, {3, pick({4, 5, 8})}, {2, pick({16, 32, 100})}, {1, pick({255, 128, 127})}});
 }
 
+// dimension entries whose products overflow 16 / 32 / 64 bits
+static rc::Gen<long long> bigDim() { return g::weightedOneOf<long long>({{6, pick({128, 128, 64, 255, 16, 32})}, {2, pick({0, 1, 2})}, {1, uni(0, 255)}}); }
+
 rc::Gen<std::vector<Op>> genFileOps(const FileCfg &c) {
     auto zeros = c.layouts ? g::weightedOneOf<long long>({{6, g::just<long long>(0)}, {2, pick({512, 1024, 1536})}, {1, uni(1, 700)}}) : g::just<long long>(0);
     auto pblock = c.layouts ? g::weightedOneOf<long long>({{6, g::just<long long>(2)}, {3, uni(3, 5)}}) : g::just<long long>(2);
@@ -64,6 +67,7 @@ rc::Gen<Case> genFileCase(const std::string &id, int tier) {
             {6, op("field", {uni(0, 400), g::weightedOneOf<long long>({{4, pick({0, 1, 2, 0x7F, 0x80, 0x81, 0xFE, 0xFF, 0x100, 0x7FFF, 0x8000, 0xFFFF})}, {1, uni(0, 65535)}})})},
             {1, op("trunc", {uni(0, 6000)})},
             {2, op("truncmeta", {uni(0, 3000)})},
+            {2, op("dims", {uni(0, 12), pick({0, 0, 1, 2, 4, 0xFF}), uni(3, 7), bigDim(), bigDim(), bigDim(), bigDim(), bigDim(), bigDim(), bigDim()})},
         });
         return asCase(concat({genFileOps(c), g::scale(0.04, g::container<std::vector<Op>>(g::scale(25.0, corr))), one(corr), one(op("load", {}))}));
     }
